@@ -69,19 +69,6 @@ theorem havoc_keeps {p : String → Bool} {Γ : Ctx} {env env' : Env} {fs : List
 
 /-! ## boolean conditions -/
 
-def boolTyped (e : Expr) : Bool := (typeOf e).base == .bool
-
-/-- the shape of a condition (of an `if`, `while`, `assert`, `pre` / `inv` / `post`):
-comparisons combined with `and` / `or` / `not`, boolean variables and elements -/
-def goodCond : Expr → Bool
-  | .binary op l r =>
-    op.isCmp || ((op == .and || op == .or) && goodCond l && goodCond r && boolTyped l && boolTyped r)
-  | .assoc op _ l r => (op == .and || op == .or) && goodCond l && goodCond r && boolTyped l && boolTyped r
-  | .unary .not e => goodCond e && boolTyped e
-  | .unary _ _ => false
-  | .as _ _ => false
-  | _ => true
-
 theorem goodFact_of_goodCond {e : Expr} (h : goodCond e = true) : GoodFact e := by
   intro op l r he
   subst he
